@@ -723,6 +723,140 @@ Proof.
   sites; rng.
 Qed.
 
+(* ---- the miter point: |intersection| <= 13108481 for display-scale edge lines that are not nearly colinear ---- *)
+Lemma lt_of_sq_lt a b : 0 <= a -> 0 <= b -> a * a < b * b -> a < b.
+Proof.
+  intros Ha Hb H. apply Z.nle_gt. intro Hc.
+  assert (b * b <= a * a) by (apply Z.mul_le_mono_nonneg; lia). lia.
+Qed.
+Lemma le_of_sq_le a b : 0 <= a -> 0 <= b -> a * a <= b * b -> a <= b.
+Proof.
+  intros Ha Hb H. apply Z.nlt_ge. intro Hc.
+  assert (b * b < a * a) by (apply Z.mul_lt_mono_nonneg; lia). lia.
+Qed.
+Lemma max_norm_sq x y N : N = Z.max (Z.abs x) (Z.abs y) -> N * N <= x * x + y * y.
+Proof. intros ->. destruct (Z.max_spec (Z.abs x) (Z.abs y)) as [[? ->]|[? ->]]; nia. Qed.
+Lemma lagrange a b c d : (a * d - b * c) * (a * d - b * c) + (a * c + b * d) * (a * c + b * d) = (a * a + b * b) * (c * c + d * d).
+Proof. ring. Qed.
+
+(* den^2 >= |dot|  ->  N1 N2 <= den^2 *)
+Lemma not_colinear_den a b c d N1 N2 :
+  N1 = Z.max (Z.abs a) (Z.abs b) -> N2 = Z.max (Z.abs c) (Z.abs d) ->
+  Z.abs (a * c + b * d) <= (a * d - b * c) * (a * d - b * c) ->
+  N1 * N2 <= (a * d - b * c) * (a * d - b * c).
+Proof.
+  intros H1 H2 H.
+  pose proof (max_norm_sq a b N1 H1) as M1. pose proof (max_norm_sq c d N2 H2) as M2.
+  pose proof (lagrange a b c d) as L.
+  assert (P1 : 0 <= N1) by lia. assert (P2 : 0 <= N2) by lia.
+  set (q := (a * d - b * c) * (a * d - b * c)) in *. set (dot := a * c + b * d) in *.
+  assert (Q : 0 <= q) by (subst q; apply Z.square_nonneg).
+  assert (D : dot * dot <= q * q).
+  { rewrite <- Z.abs_square. apply Z.mul_le_mono_nonneg; lia. }
+  assert (S : (N1 * N2) * (N1 * N2) <= (a * a + b * b) * (c * c + d * d)).
+  { replace ((N1 * N2) * (N1 * N2)) with ((N1 * N1) * (N2 * N2)) by ring.
+    apply Z.mul_le_mono_nonneg; try assumption; apply Z.square_nonneg. }
+  assert (T : (N1 * N2) * (N1 * N2) < (q + 1) * (q + 1)) by lia.
+  assert (P : 0 <= N1 * N2) by (apply Z.mul_nonneg_nonneg; assumption).
+  pose proof (lt_of_sq_lt (N1 * N2) (q + 1) P ltac:(lia) T). lia.
+Qed.
+
+(* N <= q = k*k, N <= B*B  ->  N <= B * |k| *)
+Lemma geo_mean N k B : 0 <= N -> 0 <= B -> N <= k * k -> N <= B * B -> N <= B * Z.abs k.
+Proof.
+  intros HN HB H1 H2. apply le_of_sq_le; try lia.
+  replace (B * Z.abs k * (B * Z.abs k)) with ((B * B) * (Z.abs k * Z.abs k)) by ring.
+  rewrite Z.abs_square. apply Z.mul_le_mono_nonneg; lia.
+Qed.
+
+Lemma abs_mul_le x y X Y : Z.abs x <= X -> Z.abs y <= Y -> Z.abs (x * y) <= X * Y.
+Proof. intros. rewrite Z.abs_mul. apply Z.mul_le_mono_nonneg; lia. Qed.
+Lemma round_div_bound den num B : den <> 0 -> 0 <= B -> Z.abs num <= Z.abs den * B -> - (B + 1) <= round_div den num <= B + 1.
+Proof.
+  intros Hz HB Hn. unfold round_div.
+  assert (G : forall n d, 0 < d -> Z.abs n <= d * B -> - (B + 1) <= (n + Z.quot d 2) / d <= B + 1).
+  { intros n d Hd Hb. assert (0 <= Z.quot d 2 <= d) by (rewrite Z.quot_div_nonneg by lia; split; [apply Z.div_pos; lia | apply Z.div_le_upper_bound; lia]).
+    split.
+    - apply Z.div_le_lower_bound; [assumption | nia].
+    - apply Z.div_le_upper_bound; [assumption | nia]. }
+  destruct (den <? 0) eqn:E; zb.
+  - specialize (G (- num) (- den) ltac:(lia) ltac:(lia)). unf_sat. lia.
+  - specialize (G num den ltac:(lia) ltac:(lia)). unf_sat. lia.
+Qed.
+Lemma ip_numerator_identity l1 l2 :
+  ip_x_numerator l1 l2 = ip_denominator l1 l2 * px (l_start l1)
+    - px (line_delta l1) * dot_product (le_normal l2) (psub (l_start l2) (l_start l1)) /\
+  ip_y_numerator l1 l2 = ip_denominator l1 l2 * py (l_start l1)
+    - py (line_delta l1) * dot_product (le_normal l2) (psub (l_start l2) (l_start l1)).
+Proof.
+  unfold ip_x_numerator, ip_y_numerator, ip_denominator, le_distance, le_normal, determinant, dot_product, rotate_90, line_delta, psub.
+  cbn [px py]. split; ring.
+Qed.
+Lemma ip_denominator_delta l1 l2 :
+  ip_denominator l1 l2 = px (line_delta l1) * py (line_delta l2) - py (line_delta l1) * px (line_delta l2).
+Proof. unfold ip_denominator, le_normal, determinant, rotate_90. cbn [px py]. ring. Qed.
+Lemma ip_intersection_bound l1 l2 p : edge_line l1 -> edge_line l2 -> nearly_colinear l1 l2 = false ->
+  ip_intersection l1 l2 = Some p -> pbound 13108481 p.
+Proof.
+  intros E1 E2 Hn Hp. pose proof (edge_lbound l1 E1) as B1. pose proof (edge_lbound l2 E2) as B2.
+  destruct (line_delta_total 1280 l1 ltac:(lia) B1) as [_ [Dx1 Dy1]].
+  destruct (line_delta_total 1280 l2 ltac:(lia) B2) as [_ [Dx2 Dy2]].
+  unfold ip_intersection in Hp. destruct (ip_denominator l1 l2 =? 0) eqn:Ez; [discriminate|]. zb. injection Hp as <-.
+  unfold nearly_colinear in Hn. zb.
+  destruct (ip_numerator_identity l1 l2) as [Ix Iy]. pose proof (ip_denominator_delta l1 l2) as Id.
+  set (a := px (line_delta l1)) in *. set (b := py (line_delta l1)) in *.
+  set (c := px (line_delta l2)) in *. set (d := py (line_delta l2)) in *.
+  set (den := ip_denominator l1 l2) in *.
+  set (N1 := Z.max (Z.abs a) (Z.abs b)). set (N2 := Z.max (Z.abs c) (Z.abs d)).
+  assert (HN : N1 * N2 <= den * den).
+  { rewrite Id. apply not_colinear_den; try reflexivity. unfold dot_product in Hn. fold a b c d in Hn. rewrite Id in Hn. lia. }
+  assert (P1 : 0 <= N1 <= 2560) by (subst N1; lia). assert (P2 : 0 <= N2 <= 2560) by (subst N2; lia).
+  assert (HB : N1 * N2 <= 2560 * 2560) by (apply Z.mul_le_mono_nonneg; lia).
+  assert (HG : N1 * N2 <= 2560 * Z.abs den) by (apply geo_mean; try lia; apply Z.mul_nonneg_nonneg; lia).
+  (* the second term of the numerators *)
+  set (w := dot_product (le_normal l2) (psub (l_start l2) (l_start l1))) in *.
+  assert (A1 : Z.abs a <= N1) by (subst N1; apply Z.le_max_l). assert (A2 : Z.abs b <= N1) by (subst N1; apply Z.le_max_r).
+  assert (A3 : Z.abs c <= N2) by (subst N2; apply Z.le_max_l). assert (A4 : Z.abs d <= N2) by (subst N2; apply Z.le_max_r).
+  assert (HW : Z.abs w <= 5120 * N2).
+  { subst w. unfold dot_product, le_normal, rotate_90, psub. fold c d. cbn [px py].
+    destruct B1 as [[? ?] _], B2 as [[? ?] _].
+    pose proof (abs_mul_le (- d) (px (l_start l2) - px (l_start l1)) N2 2560 ltac:(lia) ltac:(lia)) as W1.
+    pose proof (abs_mul_le c (py (l_start l2) - py (l_start l1)) N2 2560 ltac:(lia) ltac:(lia)) as W2.
+    clear - W1 W2. lia. }
+  pose proof (abs_mul_le a w N1 (5120 * N2) A1 HW) as HA.
+  pose proof (abs_mul_le b w N1 (5120 * N2) A2 HW) as HBw.
+  destruct B1 as [[Sx Sy] _].
+  pose proof (abs_mul_le den (px (l_start l1)) (Z.abs den) 1280 ltac:(lia) ltac:(clear - Sx; lia)) as HX.
+  pose proof (abs_mul_le den (py (l_start l1)) (Z.abs den) 1280 ltac:(lia) ltac:(clear - Sy; lia)) as HY.
+  unfold pbound. cbn [px py].
+  assert (NX : Z.abs (ip_x_numerator l1 l2) <= Z.abs den * 13108480).
+  { rewrite Ix. clear - HX HA HG P1 P2. set (u := den * px (l_start l1)) in *. set (v := a * w) in *. set (k := N1 * N2) in *.
+    replace (N1 * (5120 * N2)) with (5120 * k) in HA by (subst k; ring). lia. }
+  assert (NY : Z.abs (ip_y_numerator l1 l2) <= Z.abs den * 13108480).
+  { rewrite Iy. clear - HY HBw HG P1 P2. set (u := den * py (l_start l1)) in *. set (v := b * w) in *. set (k := N1 * N2) in *.
+    replace (N1 * (5120 * N2)) with (5120 * k) in HBw by (subst k; ring). lia. }
+  pose proof (round_div_bound den (ip_x_numerator l1 l2) 13108480 Ez ltac:(lia) NX) as RX.
+  pose proof (round_div_bound den (ip_y_numerator l1 l2) 13108480 Ez ltac:(lia) NY) as RY.
+  clear - RX RY. lia.
+Qed.
+Lemma join_point_bound second first p : edge_line second -> edge_line first -> join_point second first = Some p -> pbound 13108481 p.
+Proof.
+  intros E2 E1. unfold join_point. destruct (ip_intersection second first) as [q|] eqn:Eq; [ | discriminate ].
+  intros [= <-]. destruct (nearly_colinear second first) eqn:En.
+  - destruct E1 as [_ [? ?]]. revert H H0. unf_ds. unfold pbound. lia.
+  - apply (ip_intersection_bound second first); assumption.
+Qed.
+Lemma join_edges_total fl fr sl sr mid width : edge_line fl -> edge_line fr -> edge_line sl -> edge_line sr ->
+  ds_point mid -> ds_width width -> join_edges_ok fl fr sl sr mid width = true.
+Proof.
+  intros Hfl Hfr Hsl Hsr Hm Hw. unfold join_edges_ok.
+  rewrite !from_lines_total, !ip_intersection_total, !nearly_colinear_total, !from_line_total by assumption.
+  rewrite !le_point_distance_total by (assumption || apply Hsl || apply Hsr). cbn [andb].
+  destruct (join_point sl fl) as [li|] eqn:El; [ | reflexivity ]. destruct (join_point sr fr) as [ri|] eqn:Er; [ | reflexivity ].
+  pose proof (join_point_bound _ _ _ Hsl Hfl El) as [? ?]. pose proof (join_point_bound _ _ _ Hsr Hfr Er) as [? ?].
+  rewrite !miter_total; try reflexivity; try assumption; try (unfold pbound; lia); revert Hw; unf_ds; lia.
+Qed.
+
 (* =========================================================================================== *)
 (* Triangle                                                                                      *)
 (* =========================================================================================== *)
